@@ -1,7 +1,7 @@
 (* PropC05.v — property C05: well-formed mapping lines parse to exactly their parts;
    malformed ones are errors carrying the offending line.  AST, printer and wf predicate are in
    Roundtrip.v, proofs in RoundtripProofs.v. *)
-From PG Require Import Base Mapping Roundtrip RoundtripProofs.
+From PG Require Import Base Mapping Roundtrip RoundtripProofs FileLevel.
 
 Theorem C05_line_roundtrip : forall a t, wf_line a = true -> In t [[]; [10]; [13;10]; [10;10]] ->
   try_parse (print_line a ++ t) = IOk (record_of a).
@@ -30,6 +30,16 @@ Theorem C05_missing_return_type : forall lines ty ocls n args ol b,
   lacks 32 args = true -> first_not_numeric (print_orig ocls n) = true -> starts_with [45; 62; 32] b = false ->
   try_parse (print_bad_noret ocls n args ol b) = IErr (print_bad_noret ocls n args ol b).
 Proof. exact bad_noret. Qed.
+
+(* a whole file: grammar lines and noise (blank / unparseable lines), each with its own terminator
+   (LF, CR or CRLF), parse to exactly the records of the grammar lines, in order; the last line may lack
+   its terminator *)
+Theorem C05_file_records : forall f, wf_file f = true ->
+  recs (print_file f) = map record_of (file_lines f).
+Proof. exact recs_print_file_lines. Qed.
+Theorem C05_file_last_unterminated : forall f e, wf_file f = true -> wf_elem e = true ->
+  recs (print_file f ++ print_elem e) = recs (print_file f) ++ elem_records e.
+Proof. exact recs_print_file_last. Qed.
 
 Check C05_line_roundtrip : forall a t, wf_line a = true -> In t [[]; [10]; [13;10]; [10;10]] ->
   try_parse (print_line a ++ t) = IOk (record_of a).
